@@ -21,10 +21,12 @@ CONFIG = {
              'free-running stress with real locks; oracle after every schedule: no deadlock, no exception that the '
              'sequential model does not raise, result/tree equal to the sequential reference model, an unchanged '
              'sequential rebuild invokes only what the model justifies, clean on that state leaves exactly the model tree '
-             '(reveals createdDirs); evaluations = schedules executed and judged; distinct_nontrivial = distinct switch '
+             '(reveals createdDirs); directed observer races additionally with ALL pairs (worker pre-empted at its k-th '
+             'lock/file-system operation, observer pre-empted at its j-th source line executed with no lock held: '
+             'unlocked check-then-act on shared state; complete in the thorough tier, time-capped in quick); evaluations = schedules executed and judged; distinct_nontrivial = distinct switch '
              'sequences with >=1 pre-emption taken inside library code while another thread had an unfinished call'),
     'exhaustive_layer': 'single pre-emption at every lock operation and library file-system call x every other thread x every start thread, for each scenario whose layer was completed (single_layers_completed)',
-    'gates': ['observer_race_schedules', 'schedules', 'single_preemption_runs', 'single_layers_completed', 'line_preemption_runs', 'pair_runs', 'pct_runs', 'random_runs', 'stress_builds',
+    'gates': ['observer_race_schedules', 'observer_line_pair_runs', 'schedules', 'single_preemption_runs', 'single_layers_completed', 'line_preemption_runs', 'pair_runs', 'pct_runs', 'random_runs', 'stress_builds',
               'preemptions_taken', 'scenarios', 'clean_probes', 'rebuild_probes'],
     'assumptions': ['bounded: all single pre-emptions are enumerated for the scenarios visited; two pre-emptions, PCT '
                     'and random walks are samples; more than 3 threads only in free-running stress under the GIL'],
@@ -126,6 +128,9 @@ def run_observer_races(sh, rng):
     granularity in the thorough tier (sampled in quick), all single ones always."""
     Fa = {'kind': 'bf', 'idx': 13, 'body': [['write', ''], ['raise', 'Fa']]}
     Fok = {'kind': 'bf', 'idx': 10, 'body': [['q', 'read_text', 'in0', 'M'], ['write', '']]}
+    complete = True
+    # the line-pair layer may take a third of a quick budget (it is complete in the thorough tier)
+    t_end = time.time() + (0.33 * sh.budget_s if sh.tier == 'quick' else 0.5 * sh.budget_s)
     for worker_fails in (True, False):
         for depth in (1, 2):
             D = 'D' if depth == 1 else 'D/E'
@@ -150,13 +155,53 @@ def run_observer_races(sh, rng):
                              for f in (0, 1) for k1 in range(1, n + 1) for k2 in range(k1 + 1, n + 2)]
                     if sh.tier == 'quick':
                         pairs = rng.sample(pairs, min(len(pairs), 160))
-                    for st in strategies + pairs:
+                    for st in (strategies + pairs if sh.idx % 4 == 3 else []):
                         if sh.time_left() <= 0:
                             return
                         run_schedule(sh, w, tok, program, st, 'observer', rebuild_probe=rng.random() < 0.3)
                         sh.count('observer_race_schedules')
+                    if not observer_unlocked_line_pairs(sh, rng, w, tok, program, t_end):
+                        complete = False
                 finally:
                     w.discard(tok)
+    if complete:
+        sh.count('observer_line_pair_layers_completed')
+
+
+def observer_unlocked_line_pairs(sh, rng, w, tok, program, t_end):
+    """directed pairs at SOURCE-LINE granularity: the worker is pre-empted at its k1-th lock/file-system operation,
+    the observer runs and is pre-empted at its j-th source line executed while it holds no lock (between the check
+    and the act of an unlocked check-then-act on shared state), the worker finishes, the observer carries on.
+    All (k1, j); the (k1) space is divided among the shards; k1 values after which the observer takes a path not
+    seen before come first.  Returns False if the time share ran out before the layer was complete."""
+    probes = []
+    k1 = 0
+    while True:
+        k1 += 1
+        s, ok = run_schedule(sh, w, tok, program, {'kind': 'preempt2', 'k1': k1, 'j': 10 ** 9, 'first': 0},
+                             'observer-line-probe', rebuild_probe=False)
+        if getattr(s, 'p2_ops', 0) < k1 or k1 > 400:
+            break
+        if ok:
+            probes.append((k1, getattr(s, 'p2_lines', 0), hash(tuple(getattr(s, 'p2_trace', ())))))
+    sh.count('observer_line_probe_runs', len(probes))
+    mine = [p for i, p in enumerate(probes) if i % sh.n == sh.idx % sh.n]
+    # representatives (first k1 of every distinct observer path) first, in every shard
+    seen = set()
+    reps = []
+    for p in probes:
+        if p[2] not in seen:
+            seen.add(p[2])
+            reps.append(p)
+    reps = [p for i, p in enumerate(reps) if (i + 7) % sh.n == sh.idx % sh.n]
+    for k1, m, _h in reps + [p for p in mine if p not in reps]:
+        for j in range(1, m + 1):
+            if sh.time_left() <= 0 or time.time() > t_end:
+                return False
+            run_schedule(sh, w, tok, program, {'kind': 'preempt2', 'k1': k1, 'j': j, 'first': 0},
+                         'observer-line-pair', rebuild_probe=False)
+            sh.count('observer_line_pair_runs')
+    return True
 
 
 def run_schedule(sh, w, tok, program, strategy, tag, rebuild_probe=True):
@@ -271,8 +316,7 @@ def run_shard(sh):
     while time.time() - t0 < t_stress:
         stress(sh, rng)
     complete_layers = 0
-    if sh.idx % 4 == 3:
-        run_observer_races(sh, rng)
+    run_observer_races(sh, rng)
     while sh.time_left() > 0:
         program, prior, T, parents = gen_scenario(rng)
         with Scratch('t') as sc:
@@ -342,6 +386,15 @@ def run_shard(sh):
                     if sh.time_left() <= 0:
                         break
                     k1, k2 = sorted(rng.sample(range(1, n_ops + 2), 2))
+                    if rng.random() < 0.35:
+                        # first thread pre-empted at a lock/file-system operation, the thread taking over at
+                        # one of its source lines executed without any lock held
+                        run_schedule(sh, w, tok, program,
+                                     {'kind': 'preempt2', 'k1': rng.randint(1, max(1, n_ops // T + 4)),
+                                      'j': rng.randint(1, 250), 'first': rng.randrange(T)}, 'line-pair',
+                                     rebuild_probe=rng.random() < 0.3)
+                        sh.count('unlocked_line_pair_runs')
+                        continue
                     run_schedule(sh, w, tok, program,
                                  {'kind': 'preempt', 'at': {k1: rng.randrange(T), k2: rng.randrange(T)},
                                   'first': rng.randrange(T), 'grain': rng.choice(['ops', 'lines'])}, 'pair',
